@@ -1492,7 +1492,53 @@ func stress(ncallers, per int, seed uint64) (int64, string) {
 // A is completed exactly once (by its response or by the time-out), B - whose deadline is a minute
 // away - is never completed with RequestTimeout and its own response completes it.
 // returns 0 ok | 3 wrong completion of A or B's response unmatched | 5 B timed out | 7 completed twice
+// lateAfterIdle: call A times out and is reaped, leaving the table empty; one new call B is issued;
+// then A's response arrives.  It is late: it must be reported as unmatched and complete nothing -
+// in particular not B (numbering must not start over just because nothing is outstanding).
+func lateAfterIdle(c0 uint16) (int64, string) {
+	cli := qnet.NewRpcClient(context.Background(), 8)
+	cli.VerifSetCounter(c0)
+	var aCount, bCount int32
+	take := func() (uint16, bool) {
+		select {
+		case p := <-cli.PendingQueue():
+			return p.Seq(), true
+		case <-time.After(2 * time.Second):
+			return 0, false
+		}
+	}
+	cli.AsyncCall(node, wrapperspb.String("a"), func(proto.Message, int32) error { atomic.AddInt32(&aCount, 1); return nil })
+	a, ok := take()
+	if !ok {
+		return 0, ""
+	}
+	cli.VerifSetDeadline(a, time.Now().Add(-time.Second))
+	cli.VerifSweep(time.Now())
+	cli.ReapTimeout()
+	if n := atomic.LoadInt32(&aCount); n != 1 {
+		return 5, "a single overdue call was completed " + strconv.Itoa(int(n)) + " times by the sweep"
+	}
+	cli.AsyncCall(node, wrapperspb.String("b"), func(proto.Message, int32) error { atomic.AddInt32(&bCount, 1); return nil })
+	b, ok := take()
+	if !ok {
+		return 0, ""
+	}
+	resp, _ := proto.Marshal(wrapperspb.String("r1"))
+	err := cli.Dispatch(packet.New(msgID, a, fatchoy.PFlagRpc, resp))
+	if err == nil || atomic.LoadInt32(&bCount) != 0 || atomic.LoadInt32(&aCount) != 1 {
+		return 5, fmt.Sprintf("the response to call %d arrived after that call had timed out (the table was empty in between and ONE new call, numbered %d, was issued since): it was not treated as unmatched - Dispatch returned %v, the timed-out call was completed %d time(s), the new call %d time(s)",
+			a, b, err, atomic.LoadInt32(&aCount), atomic.LoadInt32(&bCount))
+	}
+	if err := cli.Dispatch(packet.New(msgID, b, fatchoy.PFlagRpc, resp)); err != nil || atomic.LoadInt32(&bCount) != 1 {
+		return 3, fmt.Sprintf("the new call %d was not completed once by its own response (Dispatch returned %v, %d completions)", b, err, atomic.LoadInt32(&bCount))
+	}
+	return 0, ""
+}
+
 func sweepRace(trials int, seed uint64) (int64, string) {
+	if code, what := lateAfterIdle(uint16(seed >> 5)); code != 0 {
+		return code, what
+	}
 	const fillers = 30000
 	cli := qnet.NewRpcClient(context.Background(), 64)
 	drain := func() {
